@@ -98,14 +98,20 @@ def explore(ck, n, sc, np, xrun=True):
                    for c, s, lo, hi in ((c, s, sum(1 for y in ys if y < c), sum(1 for y in ys if y <= c)) for c, s in zip(cands, scores))):
             ck.violation("other", f"no tau-quantile among the minimisers (tau={tau!r})", {"fn": "minimiser", "y_test": ys, "tau": tau})
         # inconsistent shapes are rejected with ValueError
+        bad_shapes = []
         if ns >= 2:
+            bad_shapes += [((ns, k), (ns + 1,)), ((ns, k), (ns - 1,)), ((1, k), (ns,)), ((ns, k), (ns, 2))]
+        bad_shapes += [((3, k), (1,)), ((1, k), (5,))]
+        for sh_tau, sh_test in bad_shapes:
+            cshape = {"fn": "quantile_score-shape", "y_tau_shape": list(sh_tau), "y_test_shape": list(sh_test), "k": k}
+            ck.case(kind="shape-reject")
             try:
-                sc.quantile_score(np.zeros((ns, k)), np.zeros(ns + 1), np.array(taus))
-                ck.violation("other", "quantile_score accepted y_test of inconsistent length", {"fn": "quantile_score-shape", "n": ns, "k": k})
+                r = sc.quantile_score(np.zeros(sh_tau), np.zeros(sh_test), np.array(taus))
+                ck.violation("other", f"quantile_score accepted inconsistent shapes y_tau{sh_tau} / y_test{sh_test} and returned shape {np.shape(r)}", cshape)
             except ValueError:
                 pass
             except Exception as e:
-                ck.violation("other", f"quantile_score raised {type(e).__name__} instead of ValueError for inconsistent shapes", {"fn": "quantile_score-shape", "n": ns, "k": k})
+                ck.violation("other", f"quantile_score raised {type(e).__name__} instead of ValueError for inconsistent shapes y_tau{sh_tau} / y_test{sh_test}", cshape)
         # ---------------- mape / bias
         truth = np.array([v if v != 0 else 1.0 for v in sample(rng, ns)])
         pred = truth + np.array([rng.gauss(0, 1) for _ in range(ns)])
@@ -129,9 +135,18 @@ def explore(ck, n, sc, np, xrun=True):
         rng.shuffle(perm)
         if rel(sc.mape(pred[perm], truth[perm]), m) > 1e-10 or abs(float(sc.bias(pred[perm], truth[perm])) - b) > 1e-9 * max(abs(float(wm)), 1e-300):
             ck.violation("other", "mape/bias depend on the order of the samples", c2)
-        s = rng.choice([2.0, -0.5, 1e3, 1e-6, -3.7])
-        if rel(sc.mape(s * pred, s * truth), m) > 1e-10 or abs(float(sc.bias(s * pred, s * truth)) - b) > 1e-9 * max(abs(float(wm)), 1e-300):
+        # scaling by a power of two is exact in binary floating point, so the scaled computation is the
+        # same sequence of roundings: the results must agree (no cancellation-dependent tolerance);
+        # other factors are compared against the exact rational value of the scaled inputs
+        s = rng.choice([2.0, -0.5, 1024.0, 2.0 ** -20, -4.0])
+        if rel(sc.mape(s * pred, s * truth), m) > 1e-13 or abs(float(sc.bias(s * pred, s * truth)) - b) > 1e-13 * max(abs(float(wm)), abs(b), 1e-300):
             ck.violation("other", f"mape/bias change under a common scale factor {s}", dict(c2, scale=s))
+        s = rng.choice([1e3, 1e-6, -3.7, 0.1])
+        sp, st = s * pred, s * truth
+        wms = sum(100 * abs(Fraction(float(t)) - Fraction(float(p))) / abs(Fraction(float(t))) for p, t in zip(sp, st)) / ns
+        wbs = sum(100 * (Fraction(float(p)) - Fraction(float(t))) / Fraction(float(t)) for p, t in zip(sp, st)) / ns
+        if rel(sc.mape(sp, st), wms) > 1e-10 or abs(float(sc.bias(sp, st)) - float(wbs)) > 1e-9 * max(float(wms), 1e-300):
+            ck.violation("other", f"mape/bias of inputs scaled by {s} differ from their exact value", dict(c2, scale=s))
         if xrun and len(calls) < 4000:
             calls.append(("mape", (float(pred[0]), float(truth[0])), float(sc.mape(pred[:1], truth[:1]))))
             calls.append(("bias", (float(pred[0]), float(truth[0])), float(sc.bias(pred[:1], truth[:1]))))
@@ -159,13 +174,27 @@ def main():
     except vlib.InfraError:
         xrun = False
         ck.notes.append("Float driver not available (build broken): cross-run skipped")
-    explore(ck, ck.budget(120, 3000), sc, np, xrun)
+    for _name, c in vlib.load_corpus(PROP):
+        corpus_case(ck, c, sc, np)
+    ck.guard(lambda: explore(ck, ck.budget(120, 3000), sc, np, xrun), what="typhon.retrieval.scores")
     if ck.broken() and not ck.violations:
-        explore(ck, 3000, sc, np, xrun=False)
+        ck.guard(lambda: explore(ck, 3000, sc, np, xrun=False), what="typhon.retrieval.scores")
     ck.finish()
 
 
+def corpus_case(ck, c, sc, np):
+    """stored witnesses: {"fn": "bias"|"mape", "y_pred": [...], "y_test": [...], "expect": value}"""
+    fn = c.get("fn")
+    if fn in ("bias", "mape"):
+        got = float(getattr(sc, fn)(np.array(c["y_pred"], float), np.array(c["y_test"], float)))
+        ck.case(key=("corpus", fn, str(c["y_pred"])), kind="corpus")
+        if abs(got - c["expect"]) > 1e-9 * max(abs(c["expect"]), 1.0):
+            ck.violation("other", f"{fn}({c['y_pred']}, {c['y_test']}) = {got!r}, expected {c['expect']!r}", c)
+
+
 def replay(path):
-    obj = json.load(open(path))
-    print(json.dumps(obj.get("case"), indent=1)[:1500], obj.get("what"))
-    raise SystemExit(1 if obj.get("case") else 0)
+    import numpy as np
+    from typhon.retrieval import scores as sc
+    numlib.replay_by_rerun(PROP, path, lambda: vlib.Check(PROP, pkg="numeric", props="Proofs.Props.C19"),
+                           lambda ck: (ck.guard(lambda: explore(ck, ck.budget(120, 3000), sc, np, xrun=False)),
+                                       [corpus_case(ck, c, sc, np) for _n, c in vlib.load_corpus(PROP)]))
